@@ -1197,5 +1197,8 @@ func (r *renderer) indexLoopSubject(phi *ssa.Phi, d int) (string, bool) {
 	if _, isSlice := ln.Call.Args[0].Type().Underlying().(*types.Slice); !isSlice {
 		return "", false // strings: a range over a string is a different loop (runes)
 	}
+	if !loopInvariant(ln.Call.Args[0], blk) {
+		return "", false // the length is re-read in every iteration: not the iteration of `range`
+	}
 	return r.val(ln.Call.Args[0], d+1), true
 }
